@@ -1,0 +1,102 @@
+//! Verification hooks.  Compiled only with `RUSTFLAGS="--cfg servlin_verif"`.
+//!
+//! Lets a deterministic-simulation harness own the two things the log file writer
+//! takes from its environment: the wall clock and the progress of the writer thread.
+//! Without the cfg flag this module does not exist and nothing calls it.
+use std::collections::BTreeMap;
+use std::sync::atomic::{AtomicU64, Ordering};
+use std::sync::{Condvar, Mutex};
+use std::time::{Duration, SystemTime};
+
+static CLOCK_NS: AtomicU64 = AtomicU64::new(0);
+static NEXT_WRITER_ID: AtomicU64 = AtomicU64::new(1);
+
+#[derive(Clone, Copy, Debug, Default, Eq, PartialEq)]
+pub struct WriterInfo {
+    /// Number of events the writer thread finished processing.
+    pub events_done: u64,
+    /// The writer thread ended, normally or by panicking.
+    pub exited: bool,
+}
+
+static WRITERS: Mutex<BTreeMap<u64, WriterInfo>> = Mutex::new(BTreeMap::new());
+static CHANGED: Condvar = Condvar::new();
+
+struct ExitGuard(u64);
+impl Drop for ExitGuard {
+    fn drop(&mut self) {
+        let mut guard = WRITERS
+            .lock()
+            .unwrap_or_else(std::sync::PoisonError::into_inner);
+        guard.entry(self.0).or_default().exited = true;
+        CHANGED.notify_all();
+    }
+}
+
+thread_local! {
+    static WRITER_GUARD: std::cell::RefCell<Option<ExitGuard>> = const { std::cell::RefCell::new(None) };
+}
+
+/// The simulated wall clock.
+#[must_use]
+pub fn now() -> SystemTime {
+    SystemTime::UNIX_EPOCH + Duration::from_nanos(CLOCK_NS.load(Ordering::SeqCst))
+}
+
+/// Sets the simulated wall clock, in nanoseconds since the epoch.
+pub fn set_now_ns(ns: u64) {
+    CLOCK_NS.store(ns, Ordering::SeqCst);
+}
+
+/// The id the next writer thread will get.
+#[must_use]
+pub fn next_writer_id() -> u64 {
+    NEXT_WRITER_ID.load(Ordering::SeqCst)
+}
+
+/// Called by the writer thread when it starts.
+pub fn writer_started() {
+    let id = NEXT_WRITER_ID.fetch_add(1, Ordering::SeqCst);
+    WRITERS
+        .lock()
+        .unwrap_or_else(std::sync::PoisonError::into_inner)
+        .insert(id, WriterInfo::default());
+    WRITER_GUARD.with(|cell| *cell.borrow_mut() = Some(ExitGuard(id)));
+    CHANGED.notify_all();
+}
+
+/// Called by the writer thread after it finishes processing one event.
+pub fn writer_event_done() {
+    let opt_id = WRITER_GUARD.with(|cell| cell.borrow().as_ref().map(|guard| guard.0));
+    if let Some(id) = opt_id {
+        let mut guard = WRITERS
+            .lock()
+            .unwrap_or_else(std::sync::PoisonError::into_inner);
+        guard.entry(id).or_default().events_done += 1;
+        CHANGED.notify_all();
+    }
+}
+
+/// Waits until writer `id` has processed `events` events or has exited, or `timeout` passes.
+#[must_use]
+pub fn wait_writer(id: u64, events: u64, timeout: Duration) -> Option<WriterInfo> {
+    let guard = WRITERS
+        .lock()
+        .unwrap_or_else(std::sync::PoisonError::into_inner);
+    let (guard, _result) = CHANGED
+        .wait_timeout_while(guard, timeout, |writers| {
+            writers
+                .get(&id)
+                .map_or(true, |info| info.events_done < events && !info.exited)
+        })
+        .unwrap_or_else(std::sync::PoisonError::into_inner);
+    guard.get(&id).copied()
+}
+
+/// Forgets a finished writer.
+pub fn forget_writer(id: u64) {
+    WRITERS
+        .lock()
+        .unwrap_or_else(std::sync::PoisonError::into_inner)
+        .remove(&id);
+}
